@@ -24,6 +24,9 @@ def lattice_convex_sets(max_points=8, limit=None, seed=0):
         if sub in seen:
             continue
         seen.add(sub)
+        if not any(oracle.det3(oracle.sub(b, a), oracle.sub(c, a), oracle.sub(d, a)) != 0
+                   for a, b, c, d in itertools.combinations(sub, 4)):
+            continue      # coplanar points: not a solid (the plane enumeration of hull_facets would return the plane itself)
         fac = oracle.hull_facets(sub)
         if not fac:
             continue
